@@ -154,6 +154,11 @@ func genProfile(r *rand.Rand) *profile.Profile {
 			f.SystemName = "" // display name only
 		case 1:
 			f.SystemName = "_Zmangled" + name
+		case 2:
+			// one system name in several demangling states (tables merged from runs with different
+			// demangle= settings, or written by another tool)
+			f.SystemName = "_Z3fooi"
+			f.Name = []string{"_Z3fooi", "foo(int)", "foo", "custom::name", ""}[r.Intn(5)]
 		}
 		p.Function = append(p.Function, f)
 	}
@@ -261,8 +266,10 @@ func oneRun(seed int64, mode string, failAt int) runOut {
 		}
 	}
 	namesBefore := map[*profile.Function]string{}
+	sysBefore := map[*profile.Function]string{}
 	for _, f := range p.Function {
 		namesBefore[f] = f.Name
+		sysBefore[f] = f.SystemName
 	}
 	sc := &script{r: rand.New(rand.NewSource(seed ^ 0x5bd1e995)), failAt: failAt}
 	sources := plugin.MappingSources{}
@@ -346,6 +353,16 @@ func oneRun(seed int64, mode string, failAt int) runOut {
 			for _, l := range p.Location {
 				if w, ok := linesBefore[l.ID]; ok && fmt.Sprint(l.Line) != w {
 					out.msg = fmt.Sprintf("%s: location %d belongs to a mapping that already carried symbols (has_functions, or for local-only modes has_filenames / has_line_numbers) and force was not requested, but its lines changed from %s to %v", ctx, l.ID, w, l.Line)
+					break
+				}
+			}
+		}
+		if !force {
+			// information that is already there is not rewritten: a function that has a display name
+			// of its own (different from its system name) keeps it
+			for _, f := range p.Function {
+				if n, old := namesBefore[f]; old && n != "" && n != sysBefore[f] && f.Name != n {
+					out.msg = fmt.Sprintf("%s: function with system name %q already had the display name %q and force was not requested, but it was renamed to %q", ctx, sysBefore[f], n, f.Name)
 					break
 				}
 			}
